@@ -18,6 +18,7 @@
 #    along with this program.  If not, see <http://www.gnu.org/licenses/>.
 #
 
+from decimal import Decimal, InvalidOperation
 from bitcoinlib.networks import *
 from bitcoinlib.config.config import NETWORK_DENOMINATORS
 
@@ -74,7 +75,11 @@ class Value:
                 dens = [den for den, symb in NETWORK_DENOMINATORS.items() if symb == denominator]
                 if dens:
                     denominator = dens[0]
-            value = value * (network.denominator / denominator)
+            if isinstance(value, int):
+                # exact: the float factor network.denominator / denominator is off by one satoshi for large amounts
+                value = Decimal(value) * Decimal(repr(network.denominator)) / Decimal(repr(denominator))
+            else:
+                value = value * (network.denominator / denominator)
         return cls(value or 0, denominator, network)
 
     def __init__(self, value, denominator=None, network=DEFAULT_NETWORK):
@@ -160,26 +165,38 @@ class Value:
             network_names = [n for n in NETWORK_DEFINITIONS if
                              NETWORK_DEFINITIONS[n]['currency_code'].upper() == cur_code.upper()]
             if network_names:
-                self.network = Network(network_names[0])
+                # Keep the supplied network if it uses this currency code (testnet4, litecoin_legacy share a code)
+                if self.network.name not in network_names:
+                    self.network = Network(network_names[0])
                 self.currency = cur_code
             else:
-                for den, symb in NETWORK_DENOMINATORS.items():
+                # Try the longest symbols first, so 'da' (deca) is not read as 'd' (deci) followed by a currency code
+                for den, symb in sorted(NETWORK_DENOMINATORS.items(), key=lambda d: -len(d[1])):
                     if len(symb) and cur_code[:len(symb)] == symb:
                         cur_code = cur_code[len(symb):]
                         network_names = [n for n in NETWORK_DEFINITIONS if
                                          NETWORK_DEFINITIONS[n]['currency_code'].upper() == cur_code.upper()]
                         if network_names:
-                            self.network = Network(network_names[0])
+                            if self.network.name not in network_names:
+                                self.network = Network(network_names[0])
                             self.currency = cur_code
                         elif len(cur_code):
                             raise ValueError("Currency symbol not recognised")
                         den_input = den
                         break
-            self.value = float(value) * den_input
+            try:
+                # Scale the decimal string exactly and round to a float once; float(value) * den_input rounds twice
+                # and is off by one satoshi for some large amounts, i.e. '20999999999999.97 µBTC'
+                self.value = float(Decimal(value) * Decimal(repr(den_input)))
+            except InvalidOperation:
+                self.value = float(value) * den_input
             self.denominator = den_input if den_arg is None else den_arg
         else:
             self.denominator = den_arg or 1.0
-            self.value = float(value) * self.denominator
+            if isinstance(value, (int, Decimal)):
+                self.value = float(Decimal(value) * Decimal(repr(self.denominator)))
+            else:
+                self.value = float(value) * self.denominator
 
     def __str__(self):
         return self.str()
